@@ -145,6 +145,9 @@ func errStr(err error) string {
 }
 
 // NewSim builds a world over a generated topology with generated workloads.
+// focus tunes the workload generator towards what a property is about ("" = balanced).
+var focus string
+
 func NewSim(rng *rand.Rand, caseID string, withProvider, withTApp bool) (*Sim, error) {
 	t := model.GenTopo(rng)
 	w := world.NewWorld(withTApp)
@@ -224,7 +227,14 @@ func (s *Sim) genWorkloads(withTApp bool) {
 			}
 		}
 		// requested ranges for non-deployment workloads sometimes
-		if wl.Kind != KDp && rng.Intn(4) == 0 {
+		rangesOneIn := 4
+		if focus == "C08" {
+			rangesOneIn = 1
+			if wl.Kind == KDp && rng.Intn(2) == 0 {
+				wl.Kind, wl.Pool = KSts, ""
+			}
+		}
+		if wl.Kind != KDp && rng.Intn(rangesOneIn) == 0 {
 			wl.Ranges = s.genRanges()
 		}
 		s.WLs = append(s.WLs, wl)
